@@ -262,6 +262,9 @@ Dissociate(c, n) ==
 Wipe == /\ Op("Wipe", <<>>, [k |-> "none"])
         /\ DropChans(chans)
 
+\* String() renders the whole state for debugging: a read of everything, the text itself is not modelled
+StringOp == Same /\ Op("String", <<>>, [k |-> "none"])
+
 -----------------------------------------------------------------------------
 Init ==
   /\ nicks = {Me0} /\ me = Me0
